@@ -60,6 +60,9 @@ var c07Params = []string{`quantile((time() % 100) / 100, m0)`, `quantile by (a) 
 
 var c07Twins = []string{`abs({__name__=~"m.*"})`, `{__name__=~"m0|m1"} * 2`, `timestamp({__name__=~"m.+"})`, `sum by (a, b, c) (abs({__name__=~"m.*"}))`,
 	`clamp_min({__name__=~"m.*"}, 0)`, `1 + {__name__=~"m.*"}`, `{__name__=~"m.*"} > bool 1`, `ceil(-{__name__=~"m.*"})`, `deg({__name__=~"m.*"}) + on(a, b, c) m0`,
+	// an error that is due in a later batch of one operand, next to an operand that ends at once
+	`abs(scalar(max_over_time({__name__=~"m.*"}[1m])) + histogram_quantile(0.5, m0{a="nosuch"}))`, `ceil(scalar(rate({__name__=~"m.*"}[2m])) <= histogram_quantile(0.9, rate(h_bucket[1m])))`,
+	`abs(scalar(-{__name__=~"m.*"}) * m0{a="nosuch"})`,
 	// a negation above an operator that has merged the equal label sets already
 	`topk(5, -{__name__=~"m.*"})`, `bottomk(3, -({__name__=~"m.*"}))`, `topk(2, abs({__name__=~"m.*"}))`, `max(-{__name__=~"m.*"})`,
 	`-abs({__name__=~"m.*"})`, `-({__name__=~"m.*"} * 2)`, `-timestamp({__name__=~"m.+"})`, `-clamp_max({__name__=~"m.*"}, 100)`, `sum by (a) (-deg({__name__=~"m.*"}))`}
